@@ -99,7 +99,7 @@ func runC11(ctx *Ctx) {
 	if len(types) == 0 {
 		return
 	}
-	n := ctx.N(400, 12000)/ctx.NShards + 1
+	n := ctx.N(1000, 16000)/ctx.NShards + 1
 	ctx.CheckRapid("concurrent-readers", n, func(rt *rapid.T) *Case {
 		t := types[rapid.IntRange(0, len(types)-1).Draw(rt, "type")]
 		cfg := ctx.streamCfg(true, true)
